@@ -57,6 +57,7 @@ type Exec struct {
 	rtMode    bool
 	phiProv   map[*ssa.Phi]string
 	inlineDepth int
+	noAcqLimit bool // init runs several registry operations one after the other
 	pkgForTags *ssa.Package
 	trackWrites bool
 }
